@@ -23,7 +23,6 @@ IsUnit(v) == Dot(v, v) = One
 MkCap(x, cm) == [x |-> x, cm |-> cm]
 
 (* ---- one cap ---- *)
-(* d = 1 - x.p; written on the normal form of x.p directly (num and den stay coprime) *)
 (* x.p for 3-vectors with a single normalisation (Rat!Dot normalises after each of its six   *)
 (* operations; MC_Mangle checks that the two agree).  No 32-bit overflow while every          *)
 (* denominator is <= MaxDen: each of the three terms is at most (MaxDen^2)^3 in magnitude.    *)
@@ -34,6 +33,7 @@ Dot3(x, p) ==
       n3 == x[3][1] * p[3][1]  d3 == x[3][2] * p[3][2]
   IN Norm(n1 * (d2 * d3) + n2 * (d1 * d3) + n3 * (d1 * d2), d1 * (d2 * d3))
 DenOK(v) == v[1][2] <= MaxDen /\ v[2][2] <= MaxDen /\ v[3][2] <= MaxDen
+(* d = 1 - x.p, written on the normal form of x.p directly (num and den stay coprime) *)
 OneMinusDot(x, p) == LET d == Dot3(x, p) IN << d[2] - d[1], d[2] >>
 OnBoundaryD(cm, d) == d = RAbs(cm)
 InCapD(cm, d) == IF Le(Zero, cm) THEN Le(d, cm) ELSE Lt(Neg(cm), d)
